@@ -60,10 +60,18 @@ inductive StoreSpec where
 
 def parseStore (s : String) : Option StoreSpec :=
   match s.splitOn ":" with
-  | [k, h] => if k = "d" ∨ k = "l" ∨ k = "s" then (parseHex h).map .cell else none
-  | ["p", off, h] => match off.toNat?, parseHex h with
-    | some off, some fr => some (.frame off fr)
-    | _, _ => none
+  | [k, h] =>
+    -- `L`/`A`/`S`/`T`: the variable is a record member / an array member made from the template,
+    -- on a LocalNode / over SDO — a cell like the others
+    if k = "d" ∨ k = "l" ∨ k = "s" ∨ k = "L" ∨ k = "A" ∨ k = "S" ∨ k = "T" then (parseHex h).map .cell
+    else none
+  | [k, off, h] =>
+    -- `P`: a record member mapped into the PDO
+    if k = "p" ∨ k = "P" then
+      match off.toNat?, parseHex h with
+      | some off, some fr => some (.frame off fr)
+      | _, _ => none
+    else none
   | _ => none
 
 def storeOf (sp : StoreSpec) (t : Nat) : Store Bytes × Bytes :=
@@ -95,12 +103,211 @@ def showSeqOut (op : BitsOp) (o : Option Int) : String :=
   | .set _ _, some _ => "ok"
   | _, none => "err"
 
+/-! ### access paths: attribute or method spelling of every view, `.data` -/
+
+/-- how an access is spelt: `p` attribute, `m` method with the `fmt=` keyword, `a` method with a
+    positional fmt (the same call for the model), `n` method with the default fmt -/
+inductive Spell where
+  | prop | meth | dflt
+
+def parseSpell (s : String) : Option Spell :=
+  if s = "p" then some .prop
+  else if s = "m" ∨ s = "a" then some .meth
+  else if s = "n" then some .dflt
+  else none
+
+/-- `W:R` — spelling of the write and of every read -/
+def parseVia (s : String) : Option (Spell × Spell) :=
+  match s.splitOn ":" with
+  | [w, r] => match parseSpell w, parseSpell r with
+    | some w, some r => some (w, r)
+    | _, _ => none
+  | _ => none
+
+/-- what is read or written: one of the three views, or the bytes -/
+inductive Tgt where
+  | view (v : ViewK)
+  | data
+
+def tgtGet (sp : Spell) (t : Tgt) : Option Access :=
+  match sp, t with
+  | .prop, .view v => some (.getP v)
+  | .meth, .view v => some (.getM (some (viewFmt v)))
+  | .dflt, .view .raw => some (.getM none)
+  | .dflt, _ => none
+  | _, .data => some .getData
+
+def tgtSet (sp : Spell) (t : Tgt) (x : PyVal) : Option Access :=
+  match sp, t, x with
+  | .prop, .view v, x => some (.setP v x)
+  | .meth, .view v, x => some (.setM x (some (viewFmt v)))
+  | .dflt, .view .raw, x => some (.setM x none)
+  | .dflt, _, _ => none
+  | _, .data, .bytes b => some (.setData b)
+  | _, .data, _ => none
+
+def showPy : PyVal → String
+  | .int i => s!"{i}"
+  | .num q => showRat q
+  | .str d => showNatList d
+  | .bytes b => toHex b
+  | .none => "none"
+
+def showRes : Option PyVal → String
+  | some v => showPy v
+  | none => "err"
+
+def isStore : Access → Bool
+  | .setP _ _ => true
+  | .setM _ _ => true
+  | .setData _ => true
+  | .setBits _ _ => true
+  | _ => false
+
+def runGet (od : OdVar) (store : Store Bytes) (s0 : Bytes) (a : Option Access) : String :=
+  match a with
+  | none => "bad-op"
+  | some a =>
+    match (accessStep od store s0 a).2 with
+    | some v => s!"ok {showPy v}"
+    | none => "err"
+
+/-- `ok <store> <read-back> [<further reads>…]` / `err <store>` -/
+def runSet (od : OdVar) (store : Store Bytes) (s0 : Bytes) (aw : Option Access)
+    (reads : List (Option Access)) : String :=
+  match aw, reads.mapM id with
+  | some aw, some reads =>
+    let (s', o) := accessStep od store s0 aw
+    (match o with
+     | none => s!"err {toHex s0}"
+     | some _ =>
+       let shown := reads.map fun a => showRes (accessStep od store s' a).2
+       s!"ok {toHex s'} {String.intercalate " " shown}")
+  | _, _ => "bad-op"
+
+/-- the reads after a write: the view itself, and (extended form) the raw value and the bytes -/
+def readsAfter (r : Spell) (t : Tgt) (ext : Bool) : List (Option Access) :=
+  if ext then [tgtGet r t, tgtGet r (.view .raw), some .getData] else [tgtGet r t]
+
+/-- `raw` / `data` / `desc` / `phys` operation with the write spelt `w` and the reads spelt `r` -/
+def viewOp (w r : Spell) (ext : Bool) (args : List String) : String :=
+  match args with
+  | ["raw", st, t, "get"] =>
+    match parseStore st, t.toNat? with
+    | some sp, some t =>
+      let (store, s0) := storeOf sp t
+      runGet ⟨t, 1, [], []⟩ store s0 (tgtGet r (.view .raw))
+    | _, _ => "bad-op"
+  | ["raw", st, t, "set", v] =>
+    match parseStore st, t.toNat?, v.toInt? with
+    | some sp, some t, some v =>
+      let (store, s0) := storeOf sp t
+      runSet ⟨t, 1, [], []⟩ store s0 (tgtSet w (.view .raw) (.int v)) (readsAfter r (.view .raw) ext)
+    | _, _, _ => "bad-op"
+  | ["data", st, t, "get"] =>
+    match parseStore st, t.toNat? with
+    | some sp, some t =>
+      let (store, s0) := storeOf sp t
+      runGet ⟨t, 1, [], []⟩ store s0 (tgtGet r .data)
+    | _, _ => "bad-op"
+  | ["data", st, t, "set", b] =>
+    match parseStore st, t.toNat?, parseHex b with
+    | some sp, some t, some b =>
+      let (store, s0) := storeOf sp t
+      runSet ⟨t, 1, [], []⟩ store s0 (tgtSet w .data (.bytes b)) (readsAfter r .data ext)
+    | _, _, _ => "bad-op"
+  | ["desc", st, t, tbl, "get"] =>
+    match parseStore st, t.toNat?, parseTbl tbl with
+    | some sp, some t, some tbl =>
+      let (store, s0) := storeOf sp t
+      runGet ⟨t, 1, tbl, []⟩ store s0 (tgtGet r (.view .desc))
+    | _, _, _ => "bad-op"
+  | ["desc", st, t, tbl, "set", d] =>
+    match parseStore st, t.toNat?, parseTbl tbl, parseNatList d with
+    | some sp, some t, some tbl, some d =>
+      let (store, s0) := storeOf sp t
+      runSet ⟨t, 1, tbl, []⟩ store s0 (tgtSet w (.view .desc) (.str d)) (readsAfter r (.view .desc) ext)
+    | _, _, _, _ => "bad-op"
+  | ["phys", st, t, f, "get"] =>
+    match parseStore st, t.toNat?, parseRat f with
+    | some sp, some t, some f =>
+      let (store, s0) := storeOf sp t
+      runGet ⟨t, f, [], []⟩ store s0 (tgtGet r (.view .phys))
+    | _, _, _ => "bad-op"
+  | ["phys", st, t, f, "set", v] =>
+    match parseStore st, t.toNat?, parseRat f, parseRat v with
+    | some sp, some t, some f, some v =>
+      let (store, s0) := storeOf sp t
+      runSet ⟨t, f, [], []⟩ store s0 (tgtSet w (.view .phys) (.num v)) (readsAfter r (.view .phys) ext)
+    | _, _, _, _ => "bad-op"
+  | _ => "bad-op"
+
+/-- one step of `mseq`: `<spelling><view>?` / `<spelling><view>=<value>` with view `r` raw, `f` phys,
+    `d` desc, `b` bytes; `B<key>?` / `B<key>=<int>` for a bit field -/
+def parseStep (s : String) : Option Access :=
+  match s.toList with
+  | 'B' :: rest =>
+    (match parseSeqOp (String.ofList rest) with
+     | some (.get k) => some (.getBits k)
+     | some (.set k v) => some (.setBits k v)
+     | none => none)
+  | sp :: vw :: rest =>
+    match parseSpell (String.singleton sp) with
+    | none => none
+    | some sp =>
+      let tgt : Option Tgt :=
+        if vw = 'r' then some (.view .raw) else if vw = 'f' then some (.view .phys)
+        else if vw = 'd' then some (.view .desc) else if vw = 'b' then some .data else none
+      (match tgt, rest with
+       | some tgt, ['?'] => tgtGet sp tgt
+       | some tgt, '=' :: val =>
+         let val := String.ofList val
+         let x : Option PyVal := match tgt with
+           | .view .raw => val.toInt?.map .int
+           | .view .phys => (parseRat val).map .num
+           | .view .desc => (parseNatList val).map .str
+           | .data => (parseHex val).map .bytes
+         x.bind (tgtSet sp tgt)
+       | _, _ => none)
+  | _ => none
+
+def showStep (a : Access) (o : Option PyVal) : String :=
+  if isStore a then (if o.isSome then "ok" else "err") else showRes o
+
 /-- ops: see harness/props/c20.py; `physf` (numbers handed over as floats) is `phys` for the model -/
 def step (args0 : List String) : String :=
   let args := match args0 with
     | "physf" :: r => "phys" :: r
     | a => a
   match args with
+  | "via" :: wr :: rest =>
+    match parseVia wr with
+    | some (w, r) => viewOp w r true (match rest with | "physf" :: q => "phys" :: q | q => q)
+    | none => "bad-op"
+  | "raw" :: _ => viewOp .prop .prop false args
+  | "data" :: _ => viewOp .prop .prop false args
+  | ["fmt", st, t, fmt, "get"] =>
+    -- `var.read(fmt=<any string>)`
+    match parseStore st, t.toNat?, parseNatList fmt with
+    | some sp, some t, some fmt =>
+      let (store, s0) := storeOf sp t
+      runGet ⟨t, 1, [], []⟩ store s0 (some (.getM (some fmt)))
+    | _, _, _ => "bad-op"
+  | ["fmt", st, t, fmt, "set", v] =>
+    match parseStore st, t.toNat?, parseNatList fmt, v.toInt? with
+    | some sp, some t, some fmt, some v =>
+      let (store, s0) := storeOf sp t
+      runSet ⟨t, 1, [], []⟩ store s0 (some (.setM (.int v) (some fmt))) [some (.getM (some fmt))]
+    | _, _, _, _ => "bad-op"
+  | ["mseq", st, t, f, tbl, defs, steps] =>
+    match parseStore st, t.toNat?, parseRat f, parseTbl tbl, parseDefs defs,
+      (steps.splitOn "|").mapM parseStep with
+    | some sp, some t, some f, some tbl, some defs, some steps =>
+      let (store, s0) := storeOf sp t
+      let (s', outs) := accessRun ⟨t, f, tbl, defs⟩ store s0 steps
+      let shown := (steps.zip outs).map fun (a, o) => showStep a o
+      s!"ok {String.intercalate ";" shown} {toHex s'}"
+    | _, _, _, _, _, _ => "bad-op"
   | ["bits", st, t, defs, key, "get"] =>
     match parseStore st, t.toNat?, parseDefs defs, parseKey key with
     | some sp, some t, some defs, some key =>
